@@ -62,7 +62,7 @@ func main() {
 	found := map[string]bool{}
 	var frs []*vc.FuncResult
 	for _, pi := range eng.Packages() {
-		if pi.Contracts == nil {
+		if pi.Contracts == nil || !pi.Initial {
 			continue
 		}
 		for _, name := range pi.Contracts.Order {
